@@ -17,7 +17,8 @@ Init == [i |-> 0, viol |-> {},
          pend |-> [c \in CIds |-> <<>>],      \* requests received on c and not yet answered
          rdy  |-> [c \in CIds |-> FALSE],     \* capabilities exchange succeeded on c
          sends |-> {}, results |-> {},        \* send_request calls started / returned
-         lastClose |-> 0]
+         lastClose |-> 0,
+         seen |-> {}, ended |-> {}]           \* connections accepted / dialled; connections that ended (closed by either side, or closing themselves)
 
 Step(M, s0) ==
   LET st == Norm(s0)
@@ -36,9 +37,17 @@ Step(M, s0) ==
       sends == M0.sends \cup (IF st.act.a = "send" THEN {st.act.k} ELSE {})
       results == M0.results \cup {out[j].k : j \in {x \in 1..Len(out) : out[x].ev = "req_result"}}
       closeNow == \E j \in 1..Len(out) : out[j].ev = "sock_close"
-      lastClose == IF closeNow \/ st.act.a \in {"peer_close", "peer_reset", "garbage"} THEN now ELSE M0.lastClose
+      \* the environment's own account of which connections have ended: the peer closed / reset it, it delivered undecodable
+      \* bytes (the connection closes itself), or the node closed its socket
+      rawActs == IF s0.act.a = "multi" THEN s0.act.acts ELSE <<s0.act>>
+      endedByEnv == {rawActs[j].c : j \in {k \in 1..Len(rawActs) : rawActs[k].a \in {"peer_close", "peer_reset", "garbage"}}}
+      seen == M0.seen \cup {out[j].c : j \in {x \in 1..Len(out) : out[x].ev \in {"accept", "dial"}}}
+      ended == M0.ended \cup endedByEnv \cup {out[j].c : j \in {x \in 1..Len(out) : out[x].ev = "sock_close"}}
+      lastClose == IF closeNow \/ endedByEnv # {} THEN now ELSE M0.lastClose
       tb == sn.tb
-      idle == sn.conns = <<>>
+      \* every connection has ended: the node's own table is empty, or - whatever its tables say - every connection it ever had
+      \* has ended and it has had a wake-up period to notice
+      idle == sn.conns = <<>> \/ (seen # {} /\ seen \subseteq ended /\ now >= lastClose + MCfg.node.wakeup + 1)
       allAnswered == \A c \in CIds : pend2[c] = <<>>
       nz(k) == tb[k] # -1 /\ tb[k] # 0
       sigs == (IF idle THEN {"retained_after_all_connections_ended:" \o Names[k] : k \in {x \in 1..5 : nz(x)}} ELSE {}) \cup
@@ -49,7 +58,7 @@ Step(M, s0) ==
       succ(c) == (\E j \in 1..Len(out) : out[j].ev = "tx" /\ out[j].c = c /\ out[j].m.cmd = "CE" /\ ~out[j].m.req /\ out[j].m.rc = 2001) \/
                  (feed /\ st.act.c = c /\ \E j \in 1..Len(st.act.ms) : st.act.ms[j].cmd = "CE" /\ ~st.act.ms[j].req /\ st.act.ms[j].rc = 2001)
   IN [M0 EXCEPT !.viol = @ \cup {[sig |-> s, at |-> M0.i] : s \in sigs}, !.pend = pend2, !.rdy = [c \in CIds |-> @[c] \/ succ(c)], !.sends = sends, !.results = results,
-                !.lastClose = lastClose]
+                !.lastClose = lastClose, !.seen = seen, !.ended = ended]
 
 \* scaling: observations taken when idle after N = n1 < n2 < ... repetitions of one kind of cycle must agree
 ScaleVerdict(obs) ==
